@@ -289,14 +289,14 @@ func c27Edits(s c27Seal, rq c27Request, lay c27Layout, rng *mrand.Rand, thorough
 		var tails, heads [][]byte
 		switch s.API {
 		case "util":
-			tails = [][]byte{{0}, make([]byte, 16), c27Rand(1)}
-			heads = [][]byte{{0}, {0xFF}}
+			tails = [][]byte{{0}, make([]byte, 16), c27Rand(1), []byte("\n"), []byte(" ")}
+			heads = [][]byte{{0}, {0xFF}, []byte(" ")}
 		case "settings":
-			tails = [][]byte{[]byte("A"), []byte("AAAA"), []byte("="), []byte("\n"), []byte("\r\n")}
-			heads = [][]byte{[]byte("A"), []byte("\n")}
+			tails = [][]byte{[]byte("A"), []byte("AAAA"), []byte("="), []byte("\n"), []byte("\r\n"), []byte(" ")}
+			heads = [][]byte{[]byte("A"), []byte("\n"), []byte(" ")}
 		case "token":
-			tails = [][]byte{[]byte("0"), []byte("00"), []byte("\n")}
-			heads = [][]byte{[]byte("0"), []byte("00")}
+			tails = [][]byte{[]byte("0"), []byte("00"), []byte("\n"), []byte(" ")}
+			heads = [][]byte{[]byte("0"), []byte("00"), []byte(" ")}
 		}
 		for _, t := range tails {
 			add("extend", 0, len(t), "tail", append(append([]byte{}, text...), t...), s.Pass)
